@@ -19,12 +19,20 @@ import (
 
 type vfE5NullLogger struct{}
 
-func (vfE5NullLogger) Output(int, string) error { return nil }
+func (vfE5NullLogger) Output(_ int, s string) error {
+	if os.Getenv("VERIF_LOG") != "" {
+		fmt.Println("E5LOG " + s)
+	}
+	return nil
+}
 
 func vfE5Opts(dir string) *Options {
 	opts := NewOptions()
 	opts.Logger = vfE5NullLogger{}
 	opts.LogLevel = LOG_FATAL
+	if os.Getenv("VERIF_LOG") != "" {
+		opts.LogLevel = LOG_WARN
+	}
 	opts.TCPAddress = "127.0.0.1:0"
 	opts.HTTPAddress = "127.0.0.1:0"
 	opts.HTTPSAddress = "127.0.0.1:0"
@@ -94,6 +102,8 @@ func TestVerifE5Replay(t *testing.T) {
 	switch name {
 	case "f7_empty_stale_index", "f7_unrelated_removed", "f7_req_empty", "f7_touch_empty":
 		vfE5ReplayF7(t, name)
+	case "dq_bad_file_after_delete":
+		vfE5ReplayBadFile(t, name)
 	default:
 		t.Fatalf("unknown schedule %q", name)
 	}
@@ -150,4 +160,47 @@ func vfE5ReplayF7(t *testing.T, name string) {
 		extra = fmt.Sprintf(" u_in_map=%v heap_len=%d u_index=%d scan_dirty=%v u_stuck_in_flight=%v", inMap, heapLen, idx, dirty, still)
 	}
 	fmt.Printf("E5REPLAY %s op=%s later_fin=%s%s\n", name, r1, r2, extra)
+}
+
+// go-diskqueue v1.1.0: when the writer rotates to a new file while the reader has consumed the
+// current file exactly to its end, the reader then hits EOF in the old file and quarantines it as
+// `<name>.diskqueue.NNNNNN.dat.bad`; neither Empty nor Delete removes `.bad` files, so a deleted
+// channel leaves a file behind.  No message is lost (the file had been consumed completely).
+func vfE5ReplayBadFile(t *testing.T, name string) {
+	dir := t.TempDir()
+	opts := vfE5Opts(dir)
+	opts.MemQueueSize = 0
+	opts.MaxBytesPerFile = 100
+	n, err := New(opts)
+	if err != nil {
+		t.Fatal(err)
+	}
+	topic := n.GetTopic("dq")
+	ch := topic.GetChannel("c")
+	body := make([]byte, 10) // record = 4 + 26 + 10 = 40 bytes; two fit below 100, the third rotates
+	got := 0
+	put := func(i int) { ch.PutMessage(NewMessage(vfE5ID(i), body)) }
+	read := func() {
+		select {
+		case <-ch.backend.ReadChan():
+			got++
+		case <-time.After(2 * time.Second):
+		}
+	}
+	put(1)
+	put(2)
+	read()
+	read() // reader is exactly at the end of file 0
+	put(3) // 80+40 > 100: the writer rotates to file 1
+	read() // the reader first tries file 0 again (EOF → .bad), then reads message 3 from file 1
+	err = topic.DeleteExistingChannel("c")
+	ents, _ := os.ReadDir(dir)
+	var left []string
+	for _, e := range ents {
+		if strings.HasPrefix(e.Name(), "dq:c.") {
+			left = append(left, e.Name())
+		}
+	}
+	fmt.Printf("E5REPLAY %s delivered=%d delete_err=%v left=%s\n", name, got, err, strings.Join(left, ","))
+	n.Exit()
 }
